@@ -35,6 +35,7 @@ pub struct StreamHandle {
 }
 
 enum Item {
+    Trailers,
     Data(Vec<u8>),
     Error(u8),
     End,
@@ -82,6 +83,10 @@ impl StreamHandle {
                 }
                 Item::Pending
             }
+            Step::Trailers => {
+                s.wake_owed = false;
+                Item::Trailers
+            }
             Step::Error(k) => {
                 s.done = true;
                 s.wake_owed = false;
@@ -121,6 +126,7 @@ impl futures::Stream for SimStream {
     fn poll_next(self: Pin<&mut Self>, cx: &mut Context<'_>) -> Poll<Option<Self::Item>> {
         match self.0.poll_item(cx) {
             Item::Data(b) => Poll::Ready(Some(Ok(Bytes::from(b)))),
+            Item::Trailers => Poll::Ready(Some(Ok(Bytes::new()))),
             Item::Error(k) => Poll::Ready(Some(Err(payload_error(k)))),
             Item::End => Poll::Ready(None),
             Item::Pending => Poll::Pending,
@@ -143,6 +149,11 @@ impl http_body::Body for SimBody {
     fn poll_frame(self: Pin<&mut Self>, cx: &mut Context<'_>) -> Poll<Option<Result<http_body::Frame<Bytes>, Self::Error>>> {
         match self.0.poll_item(cx) {
             Item::Data(b) => Poll::Ready(Some(Ok(http_body::Frame::data(Bytes::from(b))))),
+            Item::Trailers => {
+                let mut h = http::HeaderMap::new();
+                h.insert("x-checksum", http::HeaderValue::from_static("abc"));
+                Poll::Ready(Some(Ok(http_body::Frame::trailers(h))))
+            }
             Item::Error(k) => Poll::Ready(Some(Err(std::io::Error::new(std::io::ErrorKind::ConnectionReset, format!("simulated stream error {k}"))))),
             Item::End => Poll::Ready(None),
             Item::Pending => Poll::Pending,
@@ -270,6 +281,7 @@ pub fn run_scenario(scn: &Scenario, stats: &mut Stats) -> ScenarioResult {
         stats.bump("fault_chunk_boundaries", spec.script.iter().filter(|s| matches!(s, Step::Chunk(_))).count().saturating_sub(1) as u64);
         stats.bump("fault_stream_pending", spec.script.iter().filter(|s| matches!(s, Step::Pending(_))).count() as u64);
         stats.bump("fault_stream_error", spec.script.iter().filter(|s| matches!(s, Step::Error(_))).count() as u64);
+        stats.bump("fault_trailers_frame", spec.script.iter().filter(|s| matches!(s, Step::Trailers)).count() as u64);
         stats.bump("fault_empty_chunk", spec.script.iter().filter(|s| matches!(s, Step::Chunk(b) if b.is_empty())).count() as u64);
         let streamed: usize = spec.script.iter().map(|s| if let Step::Chunk(b) = s { b.len() } else { 0 }).sum();
         if has_stream && streamed < spec.body.len() {
